@@ -325,14 +325,18 @@ func c04ScriptedUpload(e *Env) {
 	szx := blockwise.SZX(t.Choose(3))
 	bs := 16 << uint(szx)
 	var got [][]byte
+	var gotLine []string // method, path and content format the body came with
 	router := mux.NewRouter()
 	router.DefaultHandle(mux.HandlerFunc(func(rw mux.ResponseWriter, r *mux.Message) {
 		var body []byte
 		if r.Body() != nil {
 			body, _ = r.ReadBody()
 		}
+		path, _ := r.Options().Path()
+		cf, _ := r.Options().ContentFormat()
 		e.mu.Lock()
 		got = append(got, append([]byte(nil), body...))
+		gotLine = append(gotLine, fmt.Sprintf("%v %s cf=%d", r.Code(), path, cf))
 		e.mu.Unlock()
 		e.Notef("handler got a %d byte body", len(body))
 		_ = rw.SetResponse(codes.Changed, message.TextPlain, bytes.NewReader([]byte("ok")))
@@ -363,7 +367,12 @@ func c04ScriptedUpload(e *Env) {
 			hi = len(b)
 		}
 		mid++
-		return &WMsg{Type: TCON, Code: 2, MID: mid, Token: tok, Opts: []WOpt{{Num: OptURIPath, Val: []byte("up")}, {Num: OptContentFormat, Val: []byte{42}},
+		// the two uploads are two different requests: method, resource, content format
+		code, path, cf := byte(2), "up", byte(42)
+		if bi == 1 {
+			code, path, cf = 3, "up2", 50
+		}
+		return &WMsg{Type: TCON, Code: code, MID: mid, Token: tok, Opts: []WOpt{{Num: OptURIPath, Val: []byte(path)}, {Num: OptContentFormat, Val: []byte{cf}},
 			UintOpt(OptBlock1, BlockOpt(uint32(num), hi < len(b), uint32(szx))), UintOpt(OptSize1, uint32(len(b)))}, Payload: b[lo:hi]}
 	}
 	nb := func(bi int) int { return (len(bodies[bi]) + bs - 1) / bs }
@@ -463,14 +472,19 @@ func c04ScriptedUpload(e *Env) {
 	e.Wait()
 	e.mu.Lock()
 	gotCopy := append([][]byte(nil), got...)
+	lines := append([]string(nil), gotLine...)
 	e.mu.Unlock()
+	wantLine := []string{"POST /up cf=42", "PUT /up2 cf=50"}
 	counts := []int{0, 0}
-	for _, g := range gotCopy {
+	for gi, g := range gotCopy {
 		matched := false
 		for bi, b := range bodies {
 			if bytes.Equal(g, b) {
 				counts[bi]++
 				matched = true
+				if lines[gi] != wantLine[bi] {
+					e.Violate("C04.R3", "body-delivered-as-another-request:scripted-upload", "body %d was uploaded as %q and reached the handler as %q: the request line and options of the transfer that was abandoned under this token", bi, wantLine[bi], lines[gi])
+				}
 			}
 		}
 		if !matched {
